@@ -10,6 +10,8 @@ import KdVerif.Spec.PyIRCnExpected
   cnv2 <data hex>           the generated `kd_header_v2` parsed from the start of `data` (fuel: unread bytes + 1):
                             `ok n=<count> is64=<..> tick=<..> tm=<tid:pid:namehex,…> pad=<len> pos=<reader position>` | `err <name> pos=<..>`
   cntm <data hex>           the generated `kd_threadmap` parsed from the start of `data`: `ok <tid>:<pid>:<namehex> pos=…` | `err …`
+  cntm3 <data hex>          the generated `kd_v3_threadmap` (fuel: unread bytes / 16 + 2): `ok tm=<…> pos=…` | `err …`
+  cnad <data hex>           the generated `kd_v3_additional_data` (same fuel): `ok <taghex>:<datahex>,… pos=…` | `err …`
 -/
 open KdVerif
 namespace Driver.PyIRCn
@@ -62,7 +64,36 @@ def cmdTm : Cmd
     | none => "bad-op"
   | _ => "bad-op"
 
+def v3Env : Env := ⟨noPlist, fun r => r.rest.length / 16 + 2⟩
+
+def hexOrDash (b : Bytes) : String := if b.isEmpty then "-" else toHex b
+
+def cmdTm3 : Cmd
+  | [h] =>
+    match ofHex (unDash h) with
+    | some data =>
+      let c := Gen.PyIRCn.module.decl "kd_v3_threadmap"
+      if c.hasUnsupported then "unsupported" else
+      match project CVal.toThreadmapV3 (c.parse v3Env []) (Reader.ofBytes data) with
+      | (.ok x, r) => s!"ok tm={if x.isEmpty then "-" else ",".intercalate (x.map showEntry)} pos={r.pos}"
+      | (.error e, r) => s!"err {e.name} pos={r.pos}"
+    | none => "bad-op"
+  | _ => "bad-op"
+
+def cmdAd : Cmd
+  | [h] =>
+    match ofHex (unDash h) with
+    | some data =>
+      let c := Gen.PyIRCn.module.decl "kd_v3_additional_data"
+      if c.hasUnsupported then "unsupported" else
+      match project CVal.toBlocks (c.parse v3Env []) (Reader.ofBytes data) with
+      | (.ok x, r) =>
+        s!"ok {if x.isEmpty then "-" else ",".intercalate (x.map fun b => hexOrDash b.1 ++ ":" ++ hexOrDash b.2)} pos={r.pos}"
+      | (.error e, r) => s!"err {e.name} pos={r.pos}"
+    | none => "bad-op"
+  | _ => "bad-op"
+
 def commands : List (String × Cmd) :=
-  [("cnircheck", cmdCheck), ("cnv2", cmdV2), ("cntm", cmdTm)]
+  [("cnircheck", cmdCheck), ("cnv2", cmdV2), ("cntm", cmdTm), ("cntm3", cmdTm3), ("cnad", cmdAd)]
 
 end Driver.PyIRCn
